@@ -208,6 +208,7 @@ def vocabulary():
 
 
 VALUE_ATOMS = ['1', '1.5', 'a', 'true', 'false', 'null', '$', '$x', "'s'", '"d"', '`v`']
+TWIN_ATOMS = ['2', '2.5', 'b', 'false', 'true', 'null', '$y', '$', "'t'", '"e"', '`w`']      # the same classes, other values
 FORMS = ['%s', '%s %s', '%s %s %s', 'f(%s)', 'f(%s, %s)', '[%s, %s]', '{%s => %s}', '$.%s', '$?.%s', '%s.%s', '%s.f(%s)',
          '(%s)', '%s[%s]', 'f(a => %s)', '- %s', 'not %s']
 
@@ -519,6 +520,32 @@ def run(env, res):
                     schedule = head + rest
                     check_case(texts, schedule, False, list(STYLE_PAIRS[n_pair % len(STYLE_PAIRS)]) + ['plain'] * (len(texts) - 2),
                                family='schedules_directed_pairs')
+            # (b1') VALUE TWINS: pairs of short texts that are fillings of the small grammatical forms, most of them valid (so
+            # that every kind of reduction runs, and more than one per text), where the second text spells the same token
+            # classes with OTHER values (`2` for `1`, `$y` for `$x`, `g(` for `f(` ...): whatever one parse leaves behind between
+            # two of its reductions - not only between two fetches - shows in the other's tree.  Random interleavings.
+            def form_text(values, rename):
+                for _ in range(6):
+                    f = rng.choice(FORMS)
+                    t = (f.replace('f(', 'g(').replace('a =>', 'b =>') if rename else f) % tuple(
+                        rng.choice(values) for _ in range(f.count('%s')))
+                    if fresh(t)[0] == 'ok' or rng.random() < 0.15:
+                        return t
+                return t
+            for n_tw in range(4000 if tier == 'quick' else 20000):
+                if res.failures:
+                    break
+                if n_tw % 2 == 0:
+                    ta, tb = form_text(VALUE_ATOMS, False), form_text(TWIN_ATOMS, True)
+                    texts = [ta, tb] if n_tw % 4 else [tb, ta]
+                    # the second parse runs from start to end between two steps of the first (a random cut) ...
+                    cut = rng.randrange(1, max(2, steps[texts[0]]))
+                    schedule = [0] * cut + [1] * steps[texts[1]] + [0] * (steps[texts[0]] - cut)
+                else:
+                    # ... and the same pair freely interleaved
+                    schedule = [i for i, t in enumerate(texts) for _ in range(steps[t])]
+                    rng.shuffle(schedule)
+                check_case(texts, schedule, False, list(STYLE_PAIRS[(n_tw // 2) % len(STYLE_PAIRS)]), family='schedules_value_twins')
             # (b2) exhaustive: 2 threads x short texts (the fixed ones and generated ones that together spell every class)
             short_gen = []
             uncovered = set(reachable)
@@ -530,7 +557,7 @@ def run(env, res):
             short_all = list(dict.fromkeys(SHORT + short_gen))
             pairs = list(itertools.product(short_all, short_all))
             rng.shuffle(pairs)
-            budget = 3000 if tier == 'quick' else 120000
+            budget = 2500 if tier == 'quick' else 80000
             done = 0
             for a, b in pairs:
                 if done >= budget or res.failures:
@@ -562,7 +589,7 @@ def run(env, res):
                     f = rng.choice(FORMS)
                     parts.append(f % tuple(rng.choice(VALUE_ATOMS + atoms[:6]) for _ in range(f.count('%s'))))
                 return (' %s ' % rng.choice(['+', 'and', '.', '?.', '->', '=', 'in', ','])).join(parts)
-            for _ in range(300 if tier == 'quick' else 6000):
+            for _ in range(300 if tier == 'quick' else 5000):
                 if res.failures:
                     break
                 k = rng.choice([2, 2, 3])
@@ -577,6 +604,7 @@ def run(env, res):
     if cases is None and not res.failures:
         import yaql
         ctx0 = yaql.create_context()
+        want_cache = {}
         lits = ["'a b'", "'a  b'", "'a\tb'", '"a b"', "'A b'", "' a b'", "`a  b`", "'a b '", "'ab'"]
         forms = ['%s', '%s + %s', '[%s, %s]', '%s = %s', '  %s', '%s  ', 'len(%s)', '(%s)', '%s+%s', '[ %s,%s ]']
         variants = []
@@ -596,7 +624,9 @@ def run(env, res):
                     except Exception as e:  # noqa
                         return ['err', type(e).__name__, str(e)]
                 got = ev(lambda: yaql.eval(t, data={'a': 1}))
-                want = ev(lambda: make_engine()(t).evaluate(data={'a': 1}, context=ctx0.create_child_context()))
+                if t not in want_cache:         # an engine of its own for every distinct text
+                    want_cache[t] = ev(lambda: make_engine()(t).evaluate(data={'a': 1}, context=ctx0.create_child_context()))
+                want = want_cache[t]
                 stats['eval_cache_parses'] += 1
                 if got != want:
                     report('oracle', 'history-dependence',
@@ -697,7 +727,13 @@ LEVEL_TEXT = ('Lean 4 theorems, generic in the tokeniser and the LR automaton: w
               'live engine is re-observed and re-proved per run (C01Gen.engine_mode, current_engine_isolated). The real '
               'code is run under a deterministic scheduler at token-fetch granularity (all interleavings for short texts, '
               'random for long, 2-3 threads), on histories in all orders, and free-running under a 1 us switch interval; '
-              'every outcome is compared with a fresh engine.')
+              'every outcome is compared with a fresh engine. Round 5: state parked on the engine-wide rules objects is modelled '
+              '(MachineR): harmless for every schedule iff no fetch reads it (rules_blind_isolated), invisible to sequential use when '
+              'input() resets it (rules_reset_sequential), breaking isolation otherwise (lookbehind witnesses); schedules put every '
+              'ordered pair of token classes of the live grammar at a switch point (coverage matrix in the evidence), pair texts that '
+              'spell the same classes with other values, and request parses through every public entry point (engine, options=, copy, '
+              'YaqlInterface root / on() early / on() late, yaql.eval); the lexer object per entry point is re-observed per run '
+              '(C01Gen.all_entry_points_perCall).')
 LEVEL_NOTE = ('partial: the atomic step is one Lexer.token call (the property\'s own granularity); that ply\'s token() and '
               'parse() touch no other shared mutable state is trusted and covered only by the schedule exploration and the '
               'stress run. Trusted: Lean kernel, harness/sched.py, the lexer-identity observation in harness/gens/engine.py.')
